@@ -52,8 +52,11 @@ package traffic
 //@   assigns nothing
 //@ extern func (github.com/gauss-project/aurorafs/pkg/settlement/traffic/cheque.ChequeSigner).Sign
 //@   assigns nothing
+//@ # number of cheques delivered to a peer so far (ghost)
+//@ ghost delivered int
 //@ extern func (github.com/gauss-project/aurorafs/pkg/settlement/traffic/trafficprotocol.Interface).EmitCheque
-//@   assigns nothing
+//@   assigns ghost delivered
+//@   ensures (result == nil ==> delivered == old(delivered) + 1) && (result != nil ==> delivered == old(delivered))
 //@ extern func (github.com/gauss-project/aurorafs/pkg/settlement/traffic/cheque.ChequeStore).PutSendCheque
 //@   assigns nothing
 
@@ -87,6 +90,8 @@ package traffic
 //@   let sent0 = bigval(traffic.retrieveChequeTraffic)
 //@   let amount = bigval(balance)
 //@   ensures cashed-record-untouched: traffic.retrieveChainTraffic == old(traffic.retrieveChainTraffic) && bigval(traffic.retrieveChainTraffic) == cashed0
-//@   ensures failed-issue-changes-nothing: result != nil ==> bigval(traffic.retrieveChequeTraffic) == sent0
-//@   ensures payout-strictly-increases: result == nil ==> bigval(traffic.retrieveChequeTraffic) == sent0 + amount
-//@   ensures never-beyond-owed: result == nil ==> bigval(traffic.retrieveChequeTraffic) <= bigval(traffic.retrieveTraffic)
+//@   ensures undelivered-changes-nothing: delivered == old(delivered) ==> result != nil && traffic.retrieveChequeTraffic == old(traffic.retrieveChequeTraffic) && bigval(traffic.retrieveChequeTraffic) == sent0 && traffic.retrieveTraffic == old(traffic.retrieveTraffic) && bigval(traffic.retrieveTraffic) == old(bigval(traffic.retrieveTraffic))
+//@   ensures delivered-payout-strictly-increases: delivered != old(delivered) ==> delivered == old(delivered) + 1 && bigval(traffic.retrieveChequeTraffic) == sent0 + amount
+//@   ensures never-beyond-owed: bigval(traffic.retrieveChequeTraffic) <= bigval(traffic.retrieveTraffic) || bigval(traffic.retrieveChequeTraffic) == sent0
+//@   ensures success-means-delivered: result == nil ==> delivered == old(delivered) + 1
+//@   callassert Interface.EmitCheque cheque-carries-raised-total: $cheque != nil && $cheque.Cheque.CumulativePayout != nil && bigval($cheque.Cheque.CumulativePayout) == sent0 + amount && $cheque.Cheque.Recipient == recipient && $cheque.Cheque.Beneficiary == beneficiary
